@@ -162,7 +162,7 @@ def tlc(module, cfg=None, workers=4, timeout=900, env=None, simulate=None, depth
     if dfs:
         jopts.append("-Dtlc2.tool.queue.IStateQueue=StateDeque")
     cmd = ["java"] + jopts + ["-cp", TLA_CP, "tlc2.TLC", "-workers", str(workers), "-metadir",
-                                os.path.join(scratch, "states"), "-config", cfg + ".cfg"]
+                                os.path.join(scratch, "states"), "-config", cfg + ".cfg", "-noGenerateSpecTE"]
     if not deadlock:
         cmd.append("-deadlock")  # -deadlock *disables* deadlock checking
     if simulate:
